@@ -566,6 +566,88 @@ def c05j(prog, rep):
     rep.floor(R, "token-consuming calls reachable for contextual keywords", n, 4)
 
 
+CONSTRUCT_CALLS = ("simple_op_until", "op_until", "take_until", "skip_pair", "skip_token", "finish_logical_line")
+
+
+def c05m(prog, rep):
+    """C05.m — the parser walks the token list once per combination of conditional-directive branches, and a contextual keyword that an
+    earlier pass has resolved (`consolidate_current_keyword`) arrives as `Keyword(K)` in the later ones.  So in the dispatch on the
+    current token's type (parse_structures, parse_statement), every kind K whose `IdentifierOrKeyword(K)` arm builds a construct —
+    reaches a call that consumes further tokens, finishes the line or parses a block, which the arm for an ordinary contextual word
+    does not reach — has a `Keyword(K)` arm that reaches the same calls.  Otherwise the construct is parsed in the first pass only:
+    in a file with an `{$IFDEF}..{$ELSE}` anywhere, the later passes flatten `on E: T do Body;` into one line, the extra lines survive
+    the consolidation and overwrite the first pass' layout."""
+    R = "C05.m"
+    from table import canon_place
+    P = "pasfmt_core::defaults::parser::InternalDelphiLogicalLineParser::"
+    n = 0
+    for fn in ("parse_structures", "parse_statement"):
+        b = prog.body(P + fn)
+        if not rep.check(b is not None, R, "anchor:" + fn, "%s not found" % fn):
+            continue
+        heads = set(b.loops())
+
+        def discr_switch(bb):
+            if bb is None:
+                return None
+            t = b.blocks[bb]["term"]
+            if t["k"] != "switch" or t["discr"]["k"] not in ("copy", "move"):
+                return None
+            d = t["discr"]["place"]["l"]
+            for st in b.blocks[bb]["stmts"]:
+                if st["k"] == "assign" and st["dst"]["l"] == d and not st["dst"]["p"] and st["rv"]["k"] == "discr":
+                    adt = norm(st["rv"].get("adt", ""))
+                    return canon_place(b, st["rv"]["place"], {}), adt, {prog.variant_of(adt, v): tb for v, tb in t["targets"]}, t["otherwise"]
+            return None
+
+        def follow(bb):
+            seen = set()
+            while bb is not None and bb not in seen:
+                seen.add(bb)
+                if discr_switch(bb):
+                    return bb
+                t = b.blocks[bb]["term"]
+                bb = t["target"] if t["k"] == "goto" else None
+            return None
+
+        def construct_calls(start):
+            if start is None:
+                return set()
+            reach = b.reach_from(start, avoid=heads, include_start=True)
+            out = set()
+            for c in b.calls():
+                if c.bb in reach:
+                    t = norm(c.t.get("resolved") or c.target or c.callee or "")
+                    nm = t.split("::")[-1]
+                    if t.startswith(P) and (nm in CONSTRUCT_CALLS or nm.startswith("parse_")) and nm != "parse_statement":
+                        out.add((c.bb, nm))
+            return out
+        for bb in sorted(b.reachable()):
+            ds = discr_switch(bb)
+            if not ds or "IdentifierOrKeyword" not in ds[2] or not re.match(r"^get_current_token_type\([^()]*\)@Some\.0$", ds[0]):
+                continue
+            ib, kb = follow(ds[2]["IdentifierOrKeyword"]), follow(ds[2].get("Keyword"))
+            ids, kds = discr_switch(ib), discr_switch(kb)
+            if ids is None:
+                continue
+            base = construct_calls(ids[3])
+            for kind, arm in sorted(ids[2].items()):
+                cc = construct_calls(arm) - base
+                if not cc:
+                    continue                     # the arm only resolves the word and takes it, like the catch-all
+                n += 1
+                arm2 = kds[2].get(kind) if kds else None
+                # (compared by callee: the two arms may be written separately and call the same helper from two places)
+                have = {nm for _, nm in construct_calls(arm2)} if arm2 is not None else set()
+                missing = sorted({nm for _, nm in cc} - have)
+                rep.check(not missing, R, "resolved-keyword-takes-the-same-arm:%s:%s" % (fn, kind),
+                          "%s builds a construct for the contextual keyword `%s` (%s) only while it is still an IdentifierOrKeyword: once a pass has resolved it to Keyword(%s), the later "
+                          "passes over the same tokens (one per conditional-directive branch) do not — the construct's lines exist in the first pass only"
+                          % (fn, kind.lower(), missing[:3], kind), where="%s:%d" % (b.file, b.line),
+                          instance={"fn": fn, "kind": kind, "construct_calls": sorted({nm for _, nm in cc})[:6], "keyword_arm": "same calls" if not missing else "missing"})
+    rep.floor(R, "contextual keywords whose arm builds a construct", n, 5)
+
+
 # adapters that answer "is there an element with property P" when P is their own predicate
 EXISTENTIAL_ADAPTERS = ("any", "find", "position", "rposition", "find_map", "filter")
 BODYLESS_DIRECTIVES = {"Forward", "External"}
@@ -666,6 +748,7 @@ def check_c05(prog, rep, tier, cfg):
     c05i(prog, rep)
     c05j(prog, rep)
     c05l(prog, rep)
+    c05m(prog, rep)
     # C05.k — "indented exactly one level deeper": what is written for a line start is `indentations` copies of the indentation string and
     # `continuations` copies of the continuation string, whatever the depth (shared with C08.a counter <-> string pairing and C10.c: the
     # width strings reach the output only through push / repeat, not through a cache that can be too short)
